@@ -209,6 +209,11 @@ pub fn worker_main() {
                     }
                     reply(json!({"ok": errs.is_empty(), "errors": errs.iter().map(|(i,e)| format!("{}:{}", i, e)).collect::<Vec<_>>(), "wal_drained": hooks::wal_drained(), "panics": take_panics()}));
                 }
+                "flush_barrier" => {
+                    // mailbox FIFO + all queued flushes complete; does not wait for the WAL task
+                    let errs = ctx.shard_manager.wait_for_flush_completion().await;
+                    reply(json!({"ok": errs.is_empty()}));
+                }
                 "wal_barrier" => {
                     // only mailbox FIFO + WAL drained; does not wait for flushes
                     // a QueryStream-free mailbox barrier: AwaitFlush waits for flushes, so
